@@ -11,6 +11,10 @@ import (
 func tokenString(s string) string {
 	s = strings.Trim(s, " \t\n\r")
 	lastChar := len(s) -1
+	if lastChar < 1 {
+		// empty (an unquoted argument cut off by the end of the input) or a lone character: nothing to strip
+		return s
+	}
 	if s[0] == char_doublequote && s[lastChar] == char_doublequote {
 		return unescapeDoubleQuoted(s[1:lastChar])
 	}
@@ -86,7 +90,7 @@ func chkErr2(l *lexer, keyword string, extension *meta.Extension) bool {
 }
 
 func trimQuotes(s string) string {
-    if s[0] == '"' {
+    if len(s) >= 2 && s[0] == '"' {
         return s[1:len(s)-1]
     }
     return s
